@@ -42,6 +42,39 @@ import atexit
 atexit.register(cleanup)
 
 
+def make_machine(kind, chunk):
+    """like shellio.make_machine, but PS1 is NOT in the shell's environment: an exported PS1 is
+    inherited by the shell a subshell block spawns, which then shows the TBOT prompt before
+    `_init_shell` has set it (see ASSUMPTIONS of c09)"""
+    from tbot.machine import channel, connector
+    argv, shell_cls = shellio.SHELLS[kind]
+    env = dict(os.environ)
+    env.update({"ENV": "", "HISTFILE": "/dev/null", "LC_ALL": "C.UTF-8", "TERM": "dumb"})
+    env.pop("PS1", None)
+    holder = {}
+
+    class M(connector.Connector, shell_cls):
+        name = "env-" + kind
+
+        def _connect(self):
+            io = shellio.FragIO(argv, None, 0.0, env)
+            holder["io"] = io
+            ch = channel.Channel(io)
+            ch.__class__ = type("ChannelChunk", (channel.Channel,), {"READ_CHUNK_SIZE": chunk, "__slots__": ()})
+            return ch
+
+        def clone(self):
+            raise NotImplementedError
+
+        @property
+        def workdir(self):
+            return linux.Path(self, "/tmp")
+
+    m = M()
+    m._verif_io = holder
+    return m
+
+
 def new_id():
     _counter[0] += 1
     return str(_counter[0])
@@ -242,7 +275,7 @@ def run_case(line, seed):
     mode = rng.choice(["1", "small", "mixed", "mixed", "big"])
     sizes = {"1": lambda: 1, "small": lambda: rng.choice([1, 2, 3]), "big": lambda: 4096,
              "mixed": lambda: rng.choice([1, 2, 3, 7, 23, 50, 512, 4096])}[mode]
-    m = shellio.make_machine(kind, chunk=chunk)
+    m = make_machine(kind, chunk)
     try:
         with contextlib.ExitStack() as stack:
             try:
